@@ -4,7 +4,7 @@ import A2Verif.Lemmas.FsFatName
 # `format` of the concrete FAT model establishes the invariant
 
 For every BIOS parameter block that describes a FAT12 volume with 512-byte sectors lying inside the image (`FmtPre`: the
-facts of `Geo` other than "the boot sector is on the image", a closed FAT buffer, the repaired variant), `format` with a
+facts of `Geo` other than "the boot sector is on the image", the repaired variant; the FAT buffer may be open: `format` discards it), `format` with a
 valid label (or none) runs to completion: the fill loop writes every sector of the volume, the boot sector is written,
 the FAT buffer opens as all zeroes (the repair against the backup copies changes nothing), entries 0 and 1 are set, the
 label entry is written to the first root sector, the buffer is written to every FAT copy.  The state reached satisfies
@@ -16,7 +16,6 @@ open A2Verif A2Verif.Fs.Fat A2Verif.Read.Fat A2Verif.Read.FatT
 /-- the blank state `format` starts from: the facts of `Geo` except the boot sector, which is a parameter -/
 structure FmtPre (d : Disk) (boot : Bytes) : Prop where
   lf : d.labelFiles = false
-  fat : d.fat = none
   bootLen : boot.length = 512
   bootBpb : Bpb.ofBoot boot = d.bpb
   ulen : d.raw.unitLen = 512
@@ -491,7 +490,8 @@ theorem format_pre_flush {d : Disk} {boot vol : Bytes} {now : Stamp} (p : FmtPre
       (∀ e ∈ dirOfBytes (rootBuf d5), Blankish e) ∧ TailZero (dirOfBytes (rootBuf d5)) ∧
       format vol boot now d = writebackFatBuffer d5 := by
   obtain ⟨r1, r2, hfill, hboot, g2, hz2⟩ := format_fill p
-  have hopen := format_open g2 p.fat hz2
+  have g2n : Geo ({ d with raw := r2, fat := none } : Disk) := geo_setFat g2 none
+  have hopen := format_open g2n rfl hz2
   have hN : 512 ≤ d.bpb.fatSecs * 512 := by
     have := p.fat16
     have : d.bpb.fatSecs = d.bpb.fat16 := by unfold Bpb.fatSecs; simp [p.fat16]
@@ -523,14 +523,14 @@ theorem format_pre_flush {d : Disk} {boot vol : Bytes} {now : Stamp} (p : FmtPre
       rfl, p.lf, by rw [hE5]; exact q1, by rw [hE5]; exact q2, ?_⟩
     unfold format
     simp only [hvalid, hvl, Bool.not_true, Bool.false_and, Bool.false_eq_true, if_false, M_bind_apply, M.get, hfill, M.lift, hboot,
-      M.setRaw, hopen, hs0, hs1, M.setFat, h32, if_true]
+      M.setRaw, M.dropFat, hopen, hs0, hs1, M.setFat, h32, if_true]
     have : labelEntry vol now = Entry.setAttr (entryCreate (stringToLabelName vol) VOLUME_ID now) (VOLUME_ID ||| ARCHIVE) := rfl
     rw [← this, hwb]
   · obtain ⟨q1, q2⟩ := blank_dir_facts (16 * d.bpb.rootDirSecs)
     refine ⟨{ d with raw := r2, fat := some f2 }, f2, g4, rfl, hsz, hb2, hfree, rfl, p.lf, by rw [hdir]; exact q1, by rw [hdir]; exact q2, ?_⟩
     unfold format
     simp only [hvl, decide_false, Bool.and_false, Bool.false_eq_true, if_false, M_bind_apply, M.get, hfill, M.lift, hboot,
-      M.setRaw, hopen, hs0, hs1, M.setFat, h32, M_pure_apply]
+      M.setRaw, M.dropFat, hopen, hs0, hs1, M.setFat, h32, M_pure_apply]
 
 /-- the run of `format`, observed after `get_img()`: it succeeds; the state reached has `Geo` and `Coh`, a FAT in which
 every data cluster is free, and a root directory of end marks preceded by at most the label entry -/
@@ -576,7 +576,7 @@ theorem fmtPre_blank {boot : Bytes} {count : Nat} (hl : boot.length = 512) (h : 
   have hsz : (blankDisk boot count).raw.units.size = count := by
     show (Array.replicate count (List.replicate 512 0)).size = count
     exact Array.size_replicate
-  refine { lf := rfl, fat := rfl, bootLen := hl, bootBpb := rfl, ulen := rfl, usz := ?_, bps := h1, spc := h2, nfat := h3, fat16 := h4,
+  refine { lf := rfl, bootLen := hl, bootBpb := rfl, ulen := rfl, usz := ?_, bps := h1, spc := h2, nfat := h3, fat16 := h4,
            spt := h5, heads := h6, typ := h7, ftyp := h7, rsvd := h8, fits := ⟨h9, by rw [hsz]; exact h10⟩, chs := ?_,
            rootSecs := h12, rootEnts := h13 }
   · intro i hi
